@@ -11,7 +11,7 @@ from harness.tlsrun import run_tls
 from wire import tlsref as R
 
 INV = ["TypeOK", "ReleasedIsPrefix", "ReleasedAllAtQuiescence", "MetaIsOverlapSet"]
-BASE = dict(StreamDef="<<1,2>>", H="5", MaxHeld="1", MaxDup="1", MaxSeg="8", AllowGap="FALSE", AllowWrap="FALSE", AllowMidGap="TRUE", BogusOver="TRUE",
+BASE = dict(StreamDef="<<1,2>>", H="5", MaxHeld="1", MaxDup="1", MaxSeg="8", AllowGap="FALSE", AllowWrap="FALSE", AllowMidGap="TRUE", BogusOver="TRUE", AllowOverlap="FALSE",
             Mod="64", IsnSet="{0}", EmitOn="FALSE")
 
 # (version, suite code): one per cipher-state kind so that a mis-ordered / lost / duplicated record is visible
@@ -163,6 +163,13 @@ def run(chk):
         chk.extra.setdefault("kf_model", {})[name] = dict(violates=r.violated, expected=expect)
         if r.violated != expect:
             raise Exception(f"model: {name} should violate {expect}, TLC says {r.violated}")
+    # 2b. documented deviation outside the property: a retransmission that starts inside a captured segment (exact duplicates are what C05 claims)
+    dv = {}
+    for inv in ("ReleasedAllAtQuiescence", "ReleasedIsPrefix"):
+        r = tlc.run("Reasm", dict(BASE, AllowOverlap="TRUE", MaxHeld="0"), invariants=[inv], view="View", timeout=200)
+        chk.tlc(f"overlapping retransmission: the direction stalls / a record is handed on twice (documented deviation, expected counterexample to {inv})", r, expect_ok=False)
+        dv[inv] = r.violated
+    chk.extra["documented_deviation_overlapping_retransmission"] = dv
     # 3. behaviours of the KF-disabled model -> real TLS connections
     jobs, nmid = [], 0
     streams = [(1, 2), (2, 1, 1)] if quick else [(1, 2), (2, 1, 1), (1, 1, 2, 1), (3, 1), (1, 3, 2)]
